@@ -125,7 +125,7 @@ def QFrame.Valid : QFrame → Prop
   | .hoursLs v => v < 16
   | .last _ _ => True
 
-instance (f : QFrame) : Decidable f.Valid := by cases f <;> unfold QFrame.Valid <;> infer_instance
+instance QFrame.decValid (f : QFrame) : Decidable f.Valid := by cases f <;> unfold QFrame.Valid <;> infer_instance
 
 /-- `build_mtc_quarter_frame_data_byte` -/
 def buildMtc (frameType data : Nat) : Nat := ((frameType <<< 4) % 256) ||| data
